@@ -97,7 +97,12 @@ def run(tier):
                      ["b1", "n0"], ["b2", "n0"], ["b1", "n5"], ["b2", "n5"], ["b1x", "n0"], ["b1y", "n0"],
                      ["bm1", "n0"], ["bm2", "n0"], ["bm3", "n0"], ["bs1", "t0"], ["bs2", "t0"], ["bo1", "t0"], ["bo2", "t0"],
                      ["bo3", "t0"]],
-            "states": plan_states, "histories": plan_h, "prefix_step": 211 if tier == "quick" else 7}
+            "states": plan_states, "histories": plan_h, "prefix_step": 211 if tier == "quick" else 7,
+            "cli_histories": [
+                [{"cfg": "t0", "batches": ["b1", "b2"]}, {"cfg": "t5", "batches": ["b1", "b2"]}, {"cfg": "t0", "batches": ["b2", "b1"]},
+                 {"cfg": "t0", "batches": ["b1", "b2"]}],
+                [{"cfg": "n0", "batches": ["bm1"]}, {"cfg": "n0", "batches": ["bm2"]}, {"cfg": "n0", "batches": ["b1"]}],
+                [{"cfg": "t9", "batches": ["bs1"]}, {"cfg": "t0", "batches": ["bs2"]}, {"cfg": "t0", "batches": ["bs1"]}]]}
     pf = os.path.join(wd, "plan.json")
     with open(pf, "w") as f:
         json.dump(plan, f)
@@ -115,8 +120,8 @@ def run(tier):
             continue
         sig = "%s installed=%s run=%s/%s" % (e["kind"], json.dumps(e["installed"], sort_keys=True), e["cfg"],
                                             ",".join(e["batches"]))
-        if e["kind"] == "history":
-            sig = "history=%s" % json.dumps(e["history"])
+        if e["kind"] in ("history", "cli"):
+            sig = "%shistory=%s" % ("cli " if e["kind"] == "cli" else "", json.dumps(e["history"]))
         grp = "%s/%s/%s" % (clause, e["kind"], "raised" if e["raised"] else "returned")
         rep.fail(clause, sig, group=grp,
                  detail={"installed": e["installed"], "cfg": e["cfg"], "batches": e["batches"], "raised": e["raised"],
